@@ -197,6 +197,56 @@ func (cg *CG) rootsOf(fn *ssa.Function) []Root {
 	return out
 }
 
+// rootsOfOp: rootsOf for a channel operation.  When the channel is a parameter of a shared helper, only the
+// call sites of the helper that bind the parameter to the operation's field lead to its goroutine contexts.
+func (cg *CG) rootsOfOp(op ChanOp) []Root {
+	if op.ViaParam == nil {
+		return cg.rootsOf(op.Fn)
+	}
+	helper := op.ViaParam.Parent()
+	idx := -1
+	for i, prm := range helper.Params {
+		if prm == op.ViaParam {
+			idx = i
+		}
+	}
+	seen := map[*ssa.Function]bool{}
+	var out []Root
+	var walk func(f *ssa.Function)
+	walk = func(f *ssa.Function) {
+		if seen[f] {
+			return
+		}
+		seen[f] = true
+		ins := cg.In[f]
+		if len(ins) == 0 {
+			out = append(out, Root{Kind: "api", Fn: f})
+			return
+		}
+		for _, e := range ins {
+			if f == helper {
+				ci, ok := e.Site.(ssa.CallInstruction)
+				if !ok || idx < 0 || idx >= len(ci.Common().Args) || chanField(ci.Common().Args[idx]) != op.Field {
+					continue
+				}
+			}
+			if e.Async() {
+				out = append(out, Root{Kind: e.Kind, Fn: f, Site: e.Site})
+			} else {
+				walk(e.Caller)
+			}
+		}
+	}
+	walk(op.Fn)
+	sort.Slice(out, func(i, j int) bool {
+		if out[i].Fn.String() != out[j].Fn.String() {
+			return out[i].Fn.String() < out[j].Fn.String()
+		}
+		return out[i].Kind < out[j].Kind
+	})
+	return out
+}
+
 // reachableSync returns the functions reachable from fn through synchronous
 // edges (fn included).
 func (cg *CG) reachableSync(fn *ssa.Function) map[*ssa.Function]bool {
